@@ -5,6 +5,9 @@ HERE = os.path.dirname(os.path.dirname(os.path.abspath(__file__)))
 
 # id -> (technique, level text, level note, design ref)
 CHECKS = {
+ "C08": ("model-based lock-step testing against a reference CPU+interrupt model: exhaustive sequences up to length 5/6 over the 8-symbol alphabet + proptest sequences with shrinking",
+         "All sequences up to length 5 (6 in thorough) over {EI, DI, RETI, HALT, STOP, NOP, raise IF, write IE} x initial master enable x IF/IE patterns x handler sets, and generated sequences up to length 40, run one instruction at a time through Core::update() in lock-step with models::sm83 + models::irq on a twin bus; PC, SP, registers, master-enable state, run state, IF, IE and pending dispatch cycles are compared after every step, the whole machine at the end.",
+         "trusted: models::sm83 and models::irq; HALT with an enabled request already pending ends the case (excluded quirk, counted); STOP treated like HALT as the property states", "DESIGN.md §5 C08"),
  "C07": ("model-based testing against a reference interrupt-dispatch model: exhaustive IF x IE x IME x run-state x stack-pointer/PC product + proptest states with shrinking",
          "The complete IF x IE x master-enable x run-state product is combined with 64 stack pointers (pushes landing on IE, IF, bank registers, side-effect I/O registers, every region boundary) and PC sets (all 256 high/low bytes where the push can change IE/IF); Core::handle_interrupt (also reached through update, run_interp and run_code_block) is compared with models::irq driving a twin machine's bus: wake-up, IME, PC, SP as 32-bit fields, charged cycles, IF, IE, ordered bus writes and the whole machine state.",
          "trusted: models::irq; the twin machine's bus produces the side effects of the two pushes; the IF value when the low-byte push itself lands on IF is set-valued", "DESIGN.md §5 C07"),
